@@ -565,7 +565,7 @@ Qed.
 Lemma inplace_step h vs ex i s' d : Inv h vs ex -> (i < length vs)%nat ->
   sstore s' = sstore (nth i vs sb0) -> lenN d <= bcap (getb h (sstore s')) ->
   soff s' + slen s' <= lenN d ->
-  (blocks (getb h (sstore s')) = 1 \/ exists x, d = bdata (getb h (sstore s')) ++ x) ->
+  (sole vs i s' \/ exists x, d = bdata (getb h (sstore s')) ++ x) ->
   Inv (set_data h (sstore s') d) (upd vs i s') ex /\
   content (set_data h (sstore s') d) s' = window (soff s') (slen s') d /\
   others_same h (set_data h (sstore s') d) vs i /\
@@ -577,8 +577,7 @@ Proof.
            soff (nth j vs sb0) + slen (nth j vs sb0) <= lenN d /\
            window (soff (nth j vs sb0)) (slen (nth j vs sb0)) d = content h (nth j vs sb0)).
   { intros j Hj Hn E. destruct Hd as [B|[x ->]].
-    - exfalso. rewrite Es in B. destruct (sole_owner h vs ex i I Hi B) as [S _].
-      apply (S j Hj Hn). congruence.
+    - exfalso. apply (B j Hj Hn). assumption.
     - destruct (inv_wf _ _ _ I j Hj) as [_ W2]. rewrite E in W2. unfold bsize in W2.
       split; [rewrite lenN_app; lia|]. rewrite window_app by assumption. rewrite content_window, E. reflexivity. }
   split; [|split; [|split]].
@@ -904,6 +903,8 @@ Proof.
   destruct (inv_wf _ _ _ I i Hi) as [W1 _]. rewrite Hs in W1.
   destruct (blocks (getb h (sstore s)) =? 1) eqn:B.
   - apply N.eqb_eq in B. set (s' := mkSBuf (sstore s) 0 0).
+    assert (So : sole vs i s').
+    { destruct (sole_owner h vs ex i I Hi ltac:(rewrite Hs; assumption)) as [So _]. rewrite Hs in So. exact So. }
     destruct (inplace_step h vs ex i s' [] I Hi) as (K1 & K2 & K3 & K4); cbn [sstore soff slen s' lenN]; rewrite ?Hs; auto; try lia.
     change (sstore s') with (sstore s) in *.
     split; [exact K1|]. split; [rewrite K2; apply window_zero|]. split; [exact K3|]. split; [exact K4|].
@@ -914,25 +915,19 @@ Proof.
     split; [rewrite content_window; apply window_zero|]. split; [intros j _ _; reflexivity|]. auto.
 Qed.
 
-(* chop arguments for which pos+n does not wrap around 2^32 *)
-Definition chop_args_ok (len pos n : N) : Prop :=
-  n = npos \/ (if (pos =? npos) || (len <? pos) then len else pos) + n < two32.
-
-Lemma sb_chop_fields (h : heap) (s : sbuf) pos0 n0 : chop_args_ok (slen s) pos0 n0 -> slen s < npos ->
+Lemma sb_chop_fields (h : heap) (s : sbuf) pos0 n0 : slen s < two32 ->
   let pos := N.min pos0 (slen s) in
   let n := N.min n0 (slen s - pos) in
   sb_chop h s pos0 n0 = if (pos =? slen s) || (n =? 0) then sb_clear h s else (h, mkSBuf (sstore s) (soff s + pos) n).
 Proof.
-  intros Hok Hl. unfold sb_chop, chop_args_ok, add32, npos, two32, gen_npos in *. cbn zeta.
+  intros Hl. unfold sb_chop, npos, two32, gen_npos in *. cbn zeta.
   set (pos := if (pos0 =? 4294967295) || (slen s <? pos0) then slen s else pos0) in *.
   assert (Ep : pos = N.min pos0 (slen s)).
   { unfold pos. destruct ((pos0 =? 4294967295) || (slen s <? pos0)) eqn:E; lia. }
   rewrite <- Ep.
-  set (n := if (n0 =? 4294967295) || (slen s <? (pos + n0) mod 4294967296) then slen s - pos else n0).
+  set (n := if (n0 =? 4294967295) || (slen s - pos <? n0) then slen s - pos else n0).
   assert (En : n = N.min n0 (slen s - pos)).
-  { unfold n. destruct Hok as [->|Hok]; [rewrite N.eqb_refl; cbn [orb]; lia|].
-    rewrite N.mod_small by assumption.
-    destruct ((n0 =? 4294967295) || (slen s <? pos + n0)) eqn:E; lia. }
+  { unfold n. destruct ((n0 =? 4294967295) || (slen s - pos <? n0)) eqn:E; lia. }
   rewrite <- En. reflexivity.
 Qed.
 
@@ -957,337 +952,157 @@ Proof.
     now rewrite !firstn_nil.
 Qed.
 
-(* ---- the specification: independent values ---- *)
-Definition lower_byte (c : N) : N := if (65 <=? c) && (c <=? 90) then c + 32 else c.
-Definition upper_byte (c : N) : N := if (97 <=? c) && (c <=? 122) then c - 32 else c.
 
-(* effect of an operation on a list of independent byte strings (ok = it returned normally) *)
-Definition spec_vals (vals : list bytes) (o : op) : list bytes :=
-  let v k := nth k vals [] in
-  match o with
-  | OSet i w => upd vals i w
-  | OAsg i j => upd vals i (v j)
-  | OApp i j => upd vals i (v i ++ v j)
-  | OApl i w => upd vals i (v i ++ w)
-  | OApr i j off n => upd vals i (v i ++ takeN n (dropN off (v j)))
-  | OAsr i j off n => upd vals i (takeN n (dropN off (v j)))
-  | OPsh i c => upd vals i (v i ++ [c])
-  | OCon d i n => let k := if n =? npos then lenN (v i) else N.min n (lenN (v i)) in
-                  upd (upd vals i (dropN k (v i))) d (takeN k (v i))
-  | OChp i pos n => upd vals i (takeN n (dropN pos (v i)))
-  | OSub d i pos n => upd vals d (takeN n (dropN pos (v i)))
-  | OTrm i j b e => vals   (* stated separately *)
-  | OSat i pos c => upd vals i (pokeN (v i) pos c)
-  | OLow i => upd vals i (map lower_byte (v i))
-  | OUpp i => upd vals i (map upper_byte (v i))
-  | OClr i => upd vals i []
-  | ORsv _ _ | ORcp _ _ | ORsq _ _ _ _ _ | OCst _ | OQuery _ _ => vals
-  | ORaw i n w => upd vals i (v i ++ w)
-  end.
-
-(* operations covered by the refinement theorem below *)
-Definition covered (st : state) (o : op) : Prop :=
-  let nv := length (vars st) in
-  match o with
-  | OClr i | OPsh i _ | OApl i _ | ORsv i _ | ORcp i _ | OQuery i _ => (i < nv)%nat
-  | OChp i pos n => (i < nv)%nat /\ chop_args_ok (slen (getv st i)) pos n /\ slen (getv st i) < npos
-  | OAsg i j => (i < nv)%nat /\ (j < nv)%nat
-  | _ => False
-  end.
-
-Definition threw (r : out) : bool := match r with RThrow => true | _ => false end.
-
-Section StepProofs.
+(* ------------------------------------------------------------------ *)
+(* results of methods relative to the variables                        *)
+(* ------------------------------------------------------------------ *)
+Section Results.
 Variable alloc_cap : N -> N.
 
-Lemma fin_spec st i (r : res (heap * sbuf)) c : SInv st -> (i < length (vars st))%nat ->
+(* RS h vs ex i c_ok c_throw r: r keeps the invariant with variable i replaced by the new `this`,
+   leaves every other variable's contents alone, and the new contents of i are c_ok on return,
+   c_throw on throw; Undef is impossible *)
+Definition RS (h : heap) (vs : list sbuf) (ex : nat -> N) (i : nat) (c_ok c_throw : bytes)
+              (r : res (heap * sbuf)) : Prop :=
   match r with
-  | Ok x => Inv (fst x) (upd (vars st) i (snd x)) ex0 /\ others_same (hp st) (fst x) (vars st) i /\
-            content (fst x) (snd x) = c
-  | Throw x => Inv (fst x) (upd (vars st) i (snd x)) ex0 /\ others_same (hp st) (fst x) (vars st) i /\
-               content (fst x) (snd x) = content (hp st) (getv st i)
-  | Undef => False
-  end ->
-  SInv (fst (fin st i r)) /\ snd (fin st i r) <> RUndef /\
-  absv (fst (fin st i r)) = if threw (snd (fin st i r)) then absv st else upd (absv st) i c.
-Proof.
-  intros I Hi H. unfold fin. destruct r as [[h1 s1]|[h1 s1]|]; [| |contradiction]; cbn [fst snd] in *.
-  - destruct H as (H1 & H2 & H3). split; [exact H1|]. split; [discriminate|]. cbn [threw].
-    unfold absv; cbn [hp vars]. apply absv_upd; assumption.
-  - destruct H as (H1 & H2 & H3). split; [exact H1|]. split; [discriminate|]. cbn [threw].
-    unfold absv; cbn [hp vars]. rewrite (absv_upd (hp st) h1 (vars st) i s1 _ Hi H2 H3).
-    unfold getv. rewrite <- nth_map_content. apply upd_same.
-Qed.
-
-Lemma fin_spec_same st i (r : res (heap * sbuf)) : SInv st -> (i < length (vars st))%nat ->
-  match r with
-  | Ok x | Throw x => Inv (fst x) (upd (vars st) i (snd x)) ex0 /\ others_same (hp st) (fst x) (vars st) i /\
-            content (fst x) (snd x) = content (hp st) (getv st i)
-  | Undef => False
-  end ->
-  SInv (fst (fin st i r)) /\ snd (fin st i r) <> RUndef /\
-  absv (fst (fin st i r)) = if threw (snd (fin st i r)) then absv st else absv st.
-Proof.
-  intros I Hi H. pose proof (fin_spec st i r (nth i (absv st) []) I Hi) as F. rewrite upd_same in F. apply F.
-  destruct r; auto. rewrite nth_absv. assumption.
-Qed.
-
-Lemma getv_nth st i : getv st i = nth i (vars st) sb0.
-Proof. reflexivity. Qed.
-
-Lemma lit_ok h s w : src_ok h s (SLit w) (lenN w).
-Proof. cbn [src_ok]. lia. Qed.
-Lemma read_lit h w : read_src h (SLit w) (lenN w) = w.
-Proof. cbn [read_src]. apply takeN_all. lia. Qed.
-
-Lemma lowAppend_fin st i w : SInv st -> (i < length (vars st))%nat ->
-  match lowAppend alloc_cap (hp st) (getv st i) (SLit w) (lenN w) with
-  | Ok x => Inv (fst x) (upd (vars st) i (snd x)) ex0 /\ others_same (hp st) (fst x) (vars st) i /\
-            content (fst x) (snd x) = nth i (absv st) [] ++ w
-  | Throw x => Inv (fst x) (upd (vars st) i (snd x)) ex0 /\ others_same (hp st) (fst x) (vars st) i /\
-               content (fst x) (snd x) = content (hp st) (getv st i)
+  | Ok x => Inv (fst x) (upd vs i (snd x)) ex /\ others_same h (fst x) vs i /\
+            content (fst x) (snd x) = c_ok /\ (length h <= length (fst x))%nat
+  | Throw x => Inv (fst x) (upd vs i (snd x)) ex /\ others_same h (fst x) vs i /\
+               content (fst x) (snd x) = c_throw /\ (length h <= length (fst x))%nat
   | Undef => False
   end.
+
+Lemma bdata_lock h id k : (id < length h)%nat -> bdata (getb (lock h id) k) = bdata (getb h k).
+Proof. intros H. rewrite getb_lock by assumption. destruct (Nat.eqb_spec k id) as [->|]; reflexivity. Qed.
+Lemma content_lock h id s : (id < length h)%nat -> content (lock h id) s = content h s.
+Proof. intros H. apply content_other_blob. apply bdata_lock. assumption. Qed.
+Lemma read_src_lock h id p n : (id < length h)%nat -> read_src (lock h id) p n = read_src h p n.
+Proof. intros H. destruct p; cbn [read_src]; [reflexivity|]. now rewrite bdata_lock. Qed.
+
+Lemma with_locker_RS h vs ex i s p body c1 c2 : Inv h vs ex -> (i < length vs)%nat -> nth i vs sb0 = s ->
+  (locker_hits h s p = true ->
+     RS (lock h (sstore s)) vs (exadd ex (sstore s)) i c1 c2 (body (lock h (sstore s)))) ->
+  (locker_hits h s p = false -> RS h vs ex i c1 c2 (body h)) ->
+  RS h vs ex i c1 c2 (with_locker h s p body).
 Proof.
-  intros I Hi.
-  pose proof (lowAppend_spec alloc_cap (hp st) (vars st) ex0 i (getv st i) (SLit w) (lenN w) I Hi eq_refl (lit_ok _ _ _)) as L.
-  destruct (lowAppend _ _ _ _ _) as [x|x|]; [| |assumption].
-  - destruct L as (L1 & L2 & L3 & _). rewrite read_lit in L3. rewrite nth_absv. auto.
-  - destruct L as (L1 & L2 & L3 & _). auto.
+  intros I Hi Hs Hhit Hmiss. unfold with_locker. destruct (locker_hits h s p) eqn:E; [|apply Hmiss; reflexivity].
+  specialize (Hhit eq_refl). destruct (inv_wf _ _ _ I i Hi) as [W _]. rewrite Hs in W.
+  assert (G : forall x c, Inv (fst x) (upd vs i (snd x)) (exadd ex (sstore s)) ->
+              others_same (lock h (sstore s)) (fst x) vs i -> content (fst x) (snd x) = c ->
+              (length (lock h (sstore s)) <= length (fst x))%nat ->
+              Inv (unlock (fst x) (sstore s)) (upd vs i (snd x)) ex /\
+              others_same h (unlock (fst x) (sstore s)) vs i /\
+              content (unlock (fst x) (sstore s)) (snd x) = c /\ (length h <= length (unlock (fst x) (sstore s)))%nat).
+  { intros x c A1 A2 A3 A4. rewrite length_lock in A4.
+    assert (X : 1 <= exadd ex (sstore s) (sstore s)) by (unfold exadd; rewrite dl_eq by reflexivity; lia).
+    assert (Hi' : (i < length (upd vs i (snd x)))%nat) by (rewrite length_upd; assumption).
+    split; [|split; [|split]].
+    - eapply Inv_ext; [|apply Inv_unlock; [exact A1|lia|exact X]].
+      intros k. unfold exsub, exadd. pose proof (dl_le (sstore s) k). lia.
+    - intros j Hj Hn.
+      pose proof (unlock_contents _ _ _ (sstore s) j A1 ltac:(lia) X ltac:(rewrite length_upd; assumption)) as U.
+      rewrite nth_upd in U by assumption. destruct (Nat.eqb_spec j i); [contradiction|].
+      rewrite U, A2 by assumption. apply content_lock. assumption.
+    - pose proof (unlock_contents _ _ _ (sstore s) i A1 ltac:(lia) X Hi') as U.
+      rewrite nth_upd, Nat.eqb_refl in U by assumption. rewrite U. assumption.
+    - rewrite length_unlock. lia. }
+  destruct (body (lock h (sstore s))) as [[h1 a]|[h1 a]|]; cbn [RS fst snd] in *; [| |assumption].
+  - destruct Hhit as (A1 & A2 & A3 & A4). exact (G (h1, a) c1 A1 A2 A3 A4).
+  - destruct Hhit as (A1 & A2 & A3 & A4). exact (G (h1, a) c2 A1 A2 A3 A4).
 Qed.
 
-Theorem step_refines st o : SInv st -> covered st o ->
-  SInv (fst (step alloc_cap st o)) /\ snd (step alloc_cap st o) <> RUndef /\
-  absv (fst (step alloc_cap st o)) =
-    if threw (snd (step alloc_cap st o)) then absv st else spec_vals (absv st) o.
+Lemma lowAppend_RS h vs ex i s p n : Inv h vs ex -> (i < length vs)%nat -> nth i vs sb0 = s ->
+  src_ok h s p n ->
+  RS h vs ex i (content h s ++ read_src h p n) (content h s) (lowAppend alloc_cap h s p n).
 Proof.
-  intros I C. destruct o; cbn [covered] in C; try contradiction; cbn [step spec_vals].
-  - (* OAsg *)
-    destruct C as [Hi Hj]. destruct (Nat.eqb_spec i j) as [->|Hn]; cbn [fst snd threw].
-    { split; [assumption|]. split; [discriminate|]. rewrite <- (content_sb0 (hp st)) at 1.
-      unfold absv. rewrite map_nth. symmetry. rewrite <- nth_map_content. apply upd_same. }
-    unfold sb_assign; cbn [fst snd threw]. unfold SInv in *. cbn [hp vars].
-    set (S := getv st j). set (s := getv st i). set (h := hp st) in *. set (vs := vars st) in *.
-    destruct (inv_wf _ _ _ I j Hj) as [WS1 WS2]. fold (getv st j) in WS1, WS2. fold S in WS1, WS2.
-    destruct (inv_wf _ _ _ I i Hi) as [Ws1 Ws2]. fold (getv st i) in Ws1, Ws2. fold s in Ws1, Ws2.
-    assert (I1 : Inv (lock h (sstore S)) vs (exadd ex0 (sstore S))) by (apply Inv_lock; assumption).
-    assert (WS' : wf (lock h (sstore S)) S).
-    { apply (wf_same h); [apply length_lock| |split; assumption].
-      rewrite getb_lock by assumption. rewrite Nat.eqb_refl. reflexivity. }
-    pose proof (Inv_move _ _ _ i S I1 Hi WS') as I2. cbn beta in I2.
-    assert (X : 1 <= exadd ex0 (sstore S) (sstore S)) by (unfold exadd; rewrite dl_eq by reflexivity; lia).
-    specialize (I2 X). change (nth i vs sb0) with s in I2.
-    assert (I3 : Inv (unlock (lock h (sstore S)) (sstore s)) (upd vs i S) ex0).
-    { eapply Inv_ext; [|apply Inv_unlock; [exact I2|rewrite length_lock; assumption|]].
-      - intros k. unfold exsub, exadd. cbn beta. change (nth i vs sb0) with s. pose proof (dl_le (sstore S) k). pose proof (dl_le (sstore s) k). lia.
-      - cbn beta. unfold exadd. rewrite (dl_eq (sstore s) (sstore s)) by reflexivity.
-        pose proof (dl_le (sstore S) (sstore s)). lia. }
-    split; [exact I3|]. split; [discriminate|].
-    assert (Cn : forall k, (k < length vs)%nat ->
-                 content (unlock (lock h (sstore S)) (sstore s)) (nth k (upd vs i S) sb0) =
-                 content h (nth k (upd vs i S) sb0)).
-    { intros k Hk. rewrite <- (length_upd vs i S) in Hk.
-      rewrite (unlock_contents _ _ _ _ k I2); [|rewrite length_lock; assumption| |assumption].
-      - apply content_other_blob. rewrite getb_lock by assumption.
-        destruct (Nat.eqb (sstore (nth k (upd vs i S) sb0)) (sstore S)) eqn:E; [|reflexivity].
-        apply Nat.eqb_eq in E. rewrite E. reflexivity.
-      - cbn beta. unfold exadd. rewrite (dl_eq (sstore s) (sstore s)) by reflexivity.
-        pose proof (dl_le (sstore S) (sstore s)). lia. }
-    unfold absv; cbn [hp vars]. fold h vs.
-    rewrite (absv_same h _ (upd vs i S)) by (rewrite length_upd; exact Cn).
-    apply (absv_upd h h vs i S); [assumption|intros k _ _; reflexivity|].
-    rewrite nth_map_content. reflexivity.
-  - (* OApl *)
-    unfold sb_append_raw, with_locker; cbn [locker_hits].
-    apply fin_spec; auto. apply lowAppend_fin; assumption.
-  - (* OPsh *)
-    apply (fin_spec st i _ (nth i (absv st) [] ++ [c])); auto.
-    exact (lowAppend_fin st i [c] I C).
-  - (* OChp *)
-    destruct C as (Hi & Hok & Hl). rewrite (sb_chop_fields _ _ _ _ Hok Hl).
-    set (s := getv st i) in *. set (p' := N.min pos (slen s)). set (n' := N.min n (slen s - p')).
-    destruct (inv_wf _ _ _ I i Hi) as [W1 W2]. change (nth i (vars st) sb0) with s in W1, W2.
-    assert (Cl : takeN n (dropN pos (nth i (absv st) [])) = window (soff s + p') n' (bdata (getb (hp st) (sstore s)))).
-    { rewrite nth_absv. fold s. rewrite content_window. symmetry. apply window_clip. exact W2. }
-    rewrite Cl.
-    destruct ((p' =? slen s) || (n' =? 0)) eqn:E.
-    + destruct (sb_clear (hp st) s) as [h1 s1] eqn:Ec. cbn [fst snd threw].
-      destruct (sb_clear_spec (hp st) (vars st) ex0 i s h1 s1 I Hi eq_refl Ec) as (K1 & K2 & K3 & _).
-      split; [exact K1|]. split; [discriminate|].
-      assert (Z : n' = 0) by (unfold n' in *; lia). rewrite Z, window_zero.
-      unfold absv; cbn [hp vars]. apply absv_upd; assumption.
-    + cbn [fst snd threw]. unfold SInv; cbn [hp vars].
-      assert (Hb : soff s + p' + n' <= bsize (getb (hp st) (sstore s))) by (unfold n', p' in *; lia).
-      split; [apply Inv_upd_fields; cbn [sstore soff slen]; auto|]. split; [discriminate|].
-      unfold absv; cbn [hp vars]. apply absv_upd; [assumption|intros j _ _; reflexivity|].
-      rewrite content_window. reflexivity.
-  - (* OClr *)
-    destruct (sb_clear (hp st) (getv st i)) as [h1 s1] eqn:Ec. cbn [fst snd threw].
-    destruct (sb_clear_spec (hp st) (vars st) ex0 i _ h1 s1 I C eq_refl Ec) as (K1 & K2 & K3 & _).
-    split; [exact K1|]. split; [discriminate|]. unfold absv; cbn [hp vars]. apply absv_upd; assumption.
-  - (* ORsv *)
-    apply fin_spec_same; auto.
-    unfold sb_reserveSpace, sb_reserveCapacity.
-    assert (R : Inv (hp st) (upd (vars st) i (getv st i)) ex0 /\ others_same (hp st) (hp st) (vars st) i /\
-                content (hp st) (getv st i) = content (hp st) (getv st i)).
-    { unfold getv. rewrite upd_same. split; [exact I|]. split; [intros j _ _; reflexivity|reflexivity]. }
-    destruct (maxSize <? n); [exact R|]. destruct (sub32 maxSize n <? _); [exact R|]. destruct (maxSize <? _); [exact R|].
-    destruct (cow alloc_cap (hp st) (getv st i) _) as [x|x|] eqn:Ecow.
-    + destruct (cow_spec alloc_cap _ _ _ i _ _ x true I C eq_refl Ecow) as [(K1 & K2 & K3 & _) _]. auto.
-    + destruct (cow_spec alloc_cap _ _ _ i _ _ x false I C eq_refl Ecow) as [(K1 & K2 & K3 & _) _]. auto.
-    + eapply cow_defined; eauto.
-  - (* ORcp *)
-    apply fin_spec_same; auto.
-    unfold sb_reserveCapacity.
-    assert (R : Inv (hp st) (upd (vars st) i (getv st i)) ex0 /\ others_same (hp st) (hp st) (vars st) i /\
-                content (hp st) (getv st i) = content (hp st) (getv st i)).
-    { unfold getv. rewrite upd_same. split; [exact I|]. split; [intros j _ _; reflexivity|reflexivity]. }
-    destruct (maxSize <? n); [exact R|].
-    destruct (cow alloc_cap (hp st) (getv st i) _) as [x|x|] eqn:Ecow.
-    + destruct (cow_spec alloc_cap _ _ _ i _ _ x true I C eq_refl Ecow) as [(K1 & K2 & K3 & _) _]. auto.
-    + destruct (cow_spec alloc_cap _ _ _ i _ _ x false I C eq_refl Ecow) as [(K1 & K2 & K3 & _) _]. auto.
-    + eapply cow_defined; eauto.
-  - (* OQuery *)
-    cbn [fst snd]. split; [exact I|]. split.
-    + destruct q; cbn [run_query]; try discriminate.
-      destruct (pos <? slen (getv st i)) eqn:E; [|discriminate].
-      pose proof (inv_wf _ _ _ I i C) as W. pose proof (wf_content_len _ _ W) as L.
-      change (nth i (vars st) sb0) with (getv st i) in L.
-      destruct (nthN pos (content (hp st) (getv st i))) eqn:En; [discriminate|].
-      exfalso. revert En. generalize dependent (content (hp st) (getv st i)). intros l.
-      assert (G : forall (l : bytes) p, p < lenN l -> nthN p l <> None).
-      { induction l0 as [|x l0 IH]; intros p Hp; cbn [lenN nthN] in *; [lia|].
-        destruct (p =? 0) eqn:E0; [discriminate|]. apply IH. lia. }
-      intros L En. apply (G l pos); [lia|assumption].
-    + destruct (threw _); reflexivity.
+  intros I Hi Hs Hsrc. pose proof (lowAppend_spec alloc_cap h vs ex i s p n I Hi Hs Hsrc) as L.
+  unfold RS. destruct (lowAppend alloc_cap h s p n) as [x|x|]; [| |assumption].
+  - destruct L as (A & B & C & D). auto.
+  - destruct L as (A & B & C & D). auto.
 Qed.
-End StepProofs.
 
-(* ------------------------------------------------------------------ *)
-(* operation sequences                                                 *)
-(* ------------------------------------------------------------------ *)
-Section Runs.
-Variable alloc_cap : N -> N.
-
-Fixpoint run (st : state) (ops : list op) : state * list out :=
-  match ops with
-  | [] => (st, [])
-  | o :: r => let '(st1, x) := step alloc_cap st o in let '(st2, xs) := run st1 r in (st2, x :: xs)
-  end.
-Fixpoint covered_run (st : state) (ops : list op) : Prop :=
-  match ops with
-  | [] => True
-  | o :: r => covered st o /\ covered_run (fst (step alloc_cap st o)) r
-  end.
-(* the same sequence on independent values; an operation that threw changes nothing *)
-Fixpoint spec_run (vals : list bytes) (ops : list op) (outs : list out) : list bytes :=
-  match ops, outs with
-  | o :: r, x :: xs => spec_run (if threw x then vals else spec_vals vals o) r xs
-  | _, _ => vals
+(* a pointer argument that lies inside a live blob's used area (or external bytes) *)
+Definition src_in (h : heap) (p : src) (n : N) : Prop :=
+  match p with
+  | SLit w => n <= lenN w
+  | SPtr sid so => n = 0 \/ ((sid < length h)%nat /\ so + n <= bsize (getb h sid))
   end.
 
-Theorem run_refines ops : forall st, SInv st -> covered_run st ops ->
-  SInv (fst (run st ops)) /\ Forall (fun x => x <> RUndef) (snd (run st ops)) /\
-  absv (fst (run st ops)) = spec_run (absv st) ops (snd (run st ops)).
+Lemma sb_append_raw_RS h vs ex i s p n : Inv h vs ex -> (i < length vs)%nat -> nth i vs sb0 = s ->
+  src_in h p n ->
+  RS h vs ex i (content h s ++ read_src h p n) (content h s) (sb_append_raw alloc_cap h s p n).
 Proof.
-  induction ops as [|o r IH]; intros st I C; cbn [run covered_run spec_run] in *.
-  - cbn [fst snd]. auto.
-  - destruct C as [C1 C2]. destruct (step_refines alloc_cap st o I C1) as (S1 & S2 & S3).
-    destruct (step alloc_cap st o) as [st1 x]. cbn [fst snd] in *.
-    destruct (IH st1 S1 C2) as (R1 & R2 & R3). destruct (run st1 r) as [st2 xs]. cbn [fst snd] in *.
-    split; [assumption|]. split; [constructor; assumption|]. rewrite R3, S3. reflexivity.
+  intros I Hi Hs Hin. unfold sb_append_raw. destruct (inv_wf _ _ _ I i Hi) as [W _]. rewrite Hs in W.
+  apply with_locker_RS; auto.
+  - intros Hit. rewrite <- (content_lock h (sstore s) s W), <- (read_src_lock h (sstore s) p n W).
+    apply lowAppend_RS; [apply Inv_lock; assumption|assumption|assumption|].
+    destruct p as [w|sid so]; cbn [src_in src_ok locker_hits] in *; [assumption|].
+    destruct Hin as [->|[H1 H2]]; [left; reflexivity|right].
+    apply andb_prop in Hit. destruct Hit as [Hit _]. apply Nat.eqb_eq in Hit. subst sid.
+    rewrite length_lock. split; [assumption|]. rewrite getb_lock, Nat.eqb_refl by assumption.
+    unfold bsize in *; cbn [bdata blocks]. split; [assumption|]. right.
+    pose proof (inv_cnt _ _ _ I _ W) as C. pose proof (refs_ge1 vs i (sstore s) Hi) as G.
+    rewrite Hs, dl_eq in G by reflexivity. lia.
+  - intros Miss. apply lowAppend_RS; auto.
+    destruct p as [w|sid so]; cbn [src_in src_ok locker_hits] in *; [assumption|].
+    destruct Hin as [->|[H1 H2]]; [left; reflexivity|].
+    destruct (Nat.eqb_spec sid (sstore s)) as [->|Hn].
+    + cbn [andb] in Miss. left. pose proof (inv_cap _ _ _ I _ W). lia.
+    + right. auto.
 Qed.
 
-Lemma refs_repeat n id : refs (repeat sb0 n) id = dl 0 id * N.of_nat n.
-Proof. induction n as [|n IH]; cbn [repeat refs sstore sb0]; [lia|]. rewrite IH. lia. Qed.
-
-Theorem init_inv nv : SInv (init_state alloc_cap nv).
+Lemma sb_assign_raw_RS h vs ex i s p n : Inv h vs ex -> (i < length vs)%nat -> nth i vs sb0 = s ->
+  src_in h p n ->
+  RS h vs ex i (read_src h p n) [] (sb_assign_raw alloc_cap h s p n).
 Proof.
-  unfold SInv, init_state; cbn [hp vars]. constructor.
-  - intros id H. cbn [length] in H. assert (id = 0%nat) as -> by lia. cbn [getb nth blocks].
-    rewrite refs_repeat. unfold ex0. rewrite !dl_eq by reflexivity. lia.
-  - intros id H. cbn [length] in H. unfold ex0. apply dl_neq. lia.
-  - intros j Hj. rewrite nth_repeat. split; cbn [sstore soff slen sb0 length]; [lia|]. lia.
-  - intros id H. cbn [length] in H. assert (id = 0%nat) as -> by lia. unfold bsize; cbn [getb nth bdata bcap lenN]. lia.
-  - intros id H. cbn [length] in H. assert (id = 0%nat) as -> by lia. cbn [getb nth bcap]. apply N.mod_lt. unfold two32; lia.
+  intros I Hi Hs Hin. unfold sb_assign_raw. destruct (inv_wf _ _ _ I i Hi) as [W _]. rewrite Hs in W.
+  (* clear(), then append: stated for any heap h0 that looks like h to the reader of p *)
+  assert (G : forall h0 ex0', Inv h0 vs ex0' -> length h0 = length h ->
+              (forall k, bdata (getb h0 k) = bdata (getb h k)) ->
+              (forall sid so, p = SPtr sid so -> sid = sstore s -> 0 < n -> 2 <= blocks (getb h0 sid)) ->
+              RS h0 vs ex0' i (read_src h p n) []
+                 (let '(h1, s1) := sb_clear h0 s in sb_append_raw alloc_cap h1 s1 p n)).
+  { intros h0 ex0' I0 L0 D0 P0.
+    destruct (sb_clear h0 s) as [h1 s1] eqn:Ec.
+    destruct (sb_clear_spec h0 vs ex0' i s h1 s1 I0 Hi Hs Ec) as (K1 & K2 & K3 & K4 & K5 & K6 & K7).
+    assert (Hi1 : (i < length (upd vs i s1))%nat) by (rewrite length_upd; assumption).
+    assert (N1 : nth i (upd vs i s1) sb0 = s1) by (rewrite nth_upd, Nat.eqb_refl by assumption; reflexivity).
+    (* the source is still where it was *)
+    assert (Rd : read_src h1 p n = read_src h p n /\ src_in h1 p n).
+    { destruct p as [w|sid so]; cbn [read_src src_in] in *; [auto|].
+      destruct Hin as [->|[H1 H2]]; [split; [now rewrite !takeN_0|left; reflexivity]|].
+      destruct (N.eq_dec n 0) as [->|Hn0]; [split; [now rewrite !takeN_0|left; reflexivity]|].
+      assert (E : bdata (getb h1 sid) = bdata (getb h sid)).
+      { destruct (Nat.eq_dec sid (sstore s)) as [Es|Es].
+        - rewrite (K7 (P0 sid so eq_refl Es ltac:(lia))). apply D0.
+        - rewrite K6 by assumption. apply D0. }
+      split; [rewrite E; reflexivity|]. right. split; [lia|]. unfold bsize in *. rewrite E. assumption. }
+    destruct Rd as [Rd Hin1].
+    pose proof (sb_append_raw_RS h1 (upd vs i s1) ex0' i s1 p n K1 Hi1 N1 Hin1) as A.
+    rewrite K2, Rd in A. cbn [app] in A.
+    unfold RS in *. destruct (sb_append_raw alloc_cap h1 s1 p n) as [x|x|]; [| |assumption].
+    - destruct A as (A1 & A2 & A3 & A4). rewrite upd_upd in A1. split; [exact A1|]. split; [|split; [exact A3|lia]].
+      intros j Hj Hn. specialize (A2 j). rewrite length_upd, nth_upd in A2 by assumption.
+      destruct (Nat.eqb_spec j i); [contradiction|]. rewrite A2 by assumption. apply K3; assumption.
+    - destruct A as (A1 & A2 & A3 & A4). rewrite upd_upd in A1. split; [exact A1|]. split; [|split; [exact A3|lia]].
+      intros j Hj Hn. specialize (A2 j). rewrite length_upd, nth_upd in A2 by assumption.
+      destruct (Nat.eqb_spec j i); [contradiction|]. rewrite A2 by assumption. apply K3; assumption. }
+  apply with_locker_RS; auto.
+  - intros Hit.
+    pose proof (G (lock h (sstore s)) (exadd ex (sstore s)) (Inv_lock _ _ _ _ I W) (length_lock _ _)
+                  (fun k => bdata_lock h (sstore s) k W)) as G1.
+    assert (RSx : forall hA hB c1 c2 r, (forall j, content hA (nth j vs sb0) = content hB (nth j vs sb0)) ->
+                  length hA = length hB -> RS hA vs (exadd ex (sstore s)) i c1 c2 r -> RS hB vs (exadd ex (sstore s)) i c1 c2 r).
+    { intros hA hB c1 c2 r Ec El. unfold RS. destruct r as [x|x|]; auto.
+      - intros (A1 & A2 & A3 & A4). split; [exact A1|]. split; [|split; [exact A3|lia]].
+        intros j Hj Hn. rewrite A2 by assumption. apply Ec.
+      - intros (A1 & A2 & A3 & A4). split; [exact A1|]. split; [|split; [exact A3|lia]].
+        intros j Hj Hn. rewrite A2 by assumption. apply Ec. }
+    apply G1. intros sid so -> -> Hn. rewrite getb_lock, Nat.eqb_refl by assumption. cbn [blocks].
+    pose proof (inv_cnt _ _ _ I _ W) as C. pose proof (refs_ge1 vs i (sstore s) Hi) as Gr.
+    rewrite Hs, dl_eq in Gr by reflexivity. lia.
+  - intros Miss. apply (G h ex I eq_refl (fun k => eq_refl)).
+    intros sid so -> -> Hn. exfalso. cbn [locker_hits src_in] in *. rewrite Nat.eqb_refl in Miss. cbn [andb] in Miss.
+    destruct Hin as [->|[H1 H2]]; [lia|]. pose proof (inv_cap _ _ _ I _ W). lia.
 Qed.
-
-Theorem init_absv nv : absv (init_state alloc_cap nv) = repeat [] nv.
-Proof.
-  unfold absv, init_state; cbn [hp vars]. generalize (1 + N.of_nat nv). intros b.
-  induction nv as [|n IH]; cbn [repeat map]; [reflexivity|]. rewrite IH, content_sb0. reflexivity.
-Qed.
-End Runs.
-
-(* ------------------------------------------------------------------ *)
-(* where the code does NOT behave like independent values (witnesses)  *)
-(* ------------------------------------------------------------------ *)
-Definition hello : bytes := [104; 101; 108; 108; 111; 32; 119; 111; 114; 108; 100].
-
-Lemma SInv_not_broken st j : SInv st -> (j < length (vars st))%nat -> sb_broken (hp st) (nth j (vars st) sb0) = false.
-Proof.
-  intros I Hj. destruct (inv_wf _ _ _ I j Hj) as [W1 W2]. pose proof (inv_cap _ _ _ I _ W1). unfold sb_broken. lia.
-Qed.
-
-(* chop(5, npos-1) on an 11-byte value: pos+n wraps, len_ becomes 2^32-2 *)
-Theorem chop_wrap_witness :
-  exists st, SInv st /\ (0 < length (vars st))%nat /\
-    nth 0 (absv st) [] = hello /\
-    sb_broken (hp (fst (step_h st (OChp 0 5 4294967294)))) (getv (fst (step_h st (OChp 0 5 4294967294))) 0) = true.
-Proof.
-  exists (fst (step_h (init_h 1) (OApl 0 hello))). split; [|split; [|split]].
-  - apply step_refines; [apply init_inv|]. cbn. lia.
-  - vm_compute. lia.
-  - vm_compute. reflexivity.
-  - vm_compute. reflexivity.
-Qed.
-
-(* rawAppendStart(0)/rawAppendFinish(p,0) on a value sharing a longer blob truncates the blob:
-   the OTHER variable is left pointing past the used area *)
-Theorem raw_zero_witness :
-  exists st, SInv st /\ (1 < length (vars st))%nat /\
-    nth 0 (absv st) [] = hello /\ nth 1 (absv st) [] = takeN 5 hello /\
-    snd (step_h st (ORaw 1 0 [])) = RVoid /\
-    sb_broken (hp (fst (step_h st (ORaw 1 0 [])))) (getv (fst (step_h st (ORaw 1 0 []))) 0) = true.
-Proof.
-  exists (fst (run harness_alloc_cap (init_h 2) [OApl 0 hello; OAsg 1 0; OChp 1 0 5])).
-  split; [|split; [|split; [|split; [|split]]]].
-  - apply run_refines; [apply init_inv|]. cbn [covered_run]. repeat split; try (vm_compute; lia).
-    + right. vm_compute. reflexivity.
-  - vm_compute. lia.
-  - vm_compute. reflexivity.
-  - vm_compute. reflexivity.
-  - vm_compute. reflexivity.
-  - vm_compute. reflexivity.
-Qed.
-
-(* rawAppendStart(2^32-2) on a 2-byte value returns normally with 30 writable bytes *)
-Theorem raw_short_witness :
-  exists st, SInv st /\ (0 < length (vars st))%nat /\ lenN (nth 0 (absv st) []) = 2 /\
-    maxSize < 4294967294 /\ snd (step_h st (ORaw 0 4294967294 [])) = RShort.
-Proof.
-  exists (fst (step_h (init_h 1) (OApl 0 [97; 98]))). split; [|split; [|split; [|split]]].
-  - apply step_refines; [apply init_inv|]. cbn. lia.
-  - vm_compute. lia.
-  - vm_compute. reflexivity.
-  - vm_compute. reflexivity.
-  - vm_compute. reflexivity.
-Qed.
-
-(* case-insensitive comparison orders byte 0xff below everything (tolower((char)0xff) = tolower(EOF) = -1) *)
-Theorem casecmp_0xff_witness :
-  sb_compare [255] [97] true npos = (-1)%Z /\ sb_compare [255] [97] false npos = 1%Z /\ lower_byte 255 = 255 /\ 97 < 255.
-Proof. vm_compute. repeat split; reflexivity. Qed.
-
-(* the <cctype> maps used by toLower()/toUpper() are the ASCII ones on every byte value *)
-Definition case_tables_check (c : N) : bool :=
-  ((if c_isupper c then to_char (c_tolower c) else c) =? lower_byte c) &&
-  ((if c_islower c then to_char (c_toupper c) else c) =? upper_byte c).
-Theorem case_tables_ascii : forall c, c < 256 ->
-  (if c_isupper c then to_char (c_tolower c) else c) = lower_byte c /\
-  (if c_islower c then to_char (c_toupper c) else c) = upper_byte c.
-Proof.
-  intros c Hc. pose proof (forallb_bytes case_tables_check ltac:(vm_compute; reflexivity) c Hc) as H.
-  unfold case_tables_check in H. apply andb_prop in H. destruct H as [H1 H2].
-  apply N.eqb_eq in H1, H2. auto.
-Qed.
+End Results.
